@@ -297,3 +297,124 @@ void h_div_limits(void) { VF_INPUT(unsigned char, sel); VF_INPUT_BOOL(neg); long
   c_ldiv(x, y, &q, &r); VF_ASSERT(q == x / y && r == x % y, "ldiv at the type limits"); c_lldiv(x, y, &q2, &r2); VF_ASSERT(q2 == x / y && r2 == x % y, "lldiv at the type limits");
   int xi = sel == 0 ? 2147483647 : (-2147483647 - 1); int qi, ri; c_div(xi, neg ? -7 : 7, &qi, &ri); VF_ASSERT(qi == xi / (neg ? -7 : 7) && ri == xi % (neg ? -7 : 7), "div(int) at the type limits");
   VF_REACH(); }
+
+/* ---- "an array of at most n characters" (ISO C 7.24.2.4 strncpy, 7.24.3.2 strncat, 7.24.4.4 strncmp, 7.29.4.2.2 wcsncpy, 7.29.4.3.2
+ * wcsncat, 7.29.4.4.3 wcsncmp; 7.24.5.1 memchr "reads the characters sequentially and stops as soon as a match is found").
+ * The source is the TIGHTEST object for which C defines the call: m elements with no null character among the first m-1, and
+ * either m == n (the last element is arbitrary: the array need NOT be terminated) or m < n and the last element is the null
+ * character.  Nothing exists behind element m-1, so looking at one element more than C allows is an out-of-bounds failure; m == 0
+ * (n == 0) is a one-past-the-end pointer that must not be dereferenced at all.
+ * The int -> character conversions (7.24.5.1 memchr, 7.24.5.2 strchr, 7.24.5.5 strrchr, 7.24.6.1 memset) range over ALL int values. ---- */
+/*@COMMON@*/
+#define AMAX 4
+#define ARR(T, s, m, n) VF_INPUT(unsigned char, m); VF_BUF(T, s, m, AMAX); __CPROVER_assume((unsigned long)m <= (unsigned long)(n));      \
+    for (int vf_j = 0; vf_j < AMAX; ++vf_j) if (vf_j + 1 < m) __CPROVER_assume(s##_in[vf_j] != 0);                                        \
+    if ((unsigned long)m < (unsigned long)(n)) __CPROVER_assume(m > 0 && s##_in[m - 1] == 0)
+/* number of characters before the null character, all m if there is none */
+#define ARR_LEN(s, m) ((unsigned long)(((m) > 0 && s##_in[(m) - 1] == 0) ? (m) - 1 : (m)))
+/* ch converted to char / unsigned char, written with arithmetic only (no implementation-defined narrowing in the oracle) */
+#define LOW8(ch) ((int)((unsigned)(ch) & 0xFFu))
+#define TO_CHAR(ch) ((char)(LOW8(ch) >= 128 ? LOW8(ch) - 256 : LOW8(ch)))
+
+/* strncpy / wcsncpy: destination of exactly n elements, source array as above */
+#define H_NCPY(T, FN)                                                                                                                     \
+  VF_INPUT(unsigned char, n); VF_INPUT(unsigned char, g); __CPROVER_assume(n <= AMAX + 2 && g < AMAX + 2); ARR(T, s, m, n);                             \
+  T *d = (T *)VF_ALLOC((unsigned long)n * sizeof(T)); for (int i = 0; i < AMAX + 2; ++i) if (i < n) d[i] = 0x55;                          \
+  T *r = FN(d, s, n);                                                                                                                     \
+  VF_ASSERT(r == d, "strncpy/wcsncpy returns dest");                                                                                      \
+  VF_ASSERT(g >= n || d[g] == (g < m ? s_in[g] : 0), "strncpy/wcsncpy from an array of at most n characters (terminated or not): exactly n elements written, the characters up to the null character, then null padding; the source is not read past n characters or past its null character"); \
+  VF_ASSERT(g >= m || s[g] == s_in[g], "strncpy/wcsncpy leaves the source unchanged");                                                    \
+  VF_REACH()
+
+/* strncat / wcsncat: n ranges over ALL size_t values; exact-fit destination */
+#define H_NCAT(T, FN)                                                                                                                     \
+  VF_INPUT(unsigned long, n); VF_INPUT(unsigned char, ld); VF_INPUT(unsigned char, g); VF_INPUT_ARR(T, pre, AMAX); ARR(T, s, m, n);       \
+  __CPROVER_assume(ld <= AMAX); unsigned long app = ARR_LEN(s, m); __CPROVER_assume(g <= ld + app);                                       \
+  T *d = (T *)VF_ALLOC(((unsigned long)ld + app + 1) * sizeof(T));                                                                        \
+  for (int i = 0; i < AMAX; ++i) if (i < ld) { __CPROVER_assume(pre[i] != 0); d[i] = pre[i]; } d[ld] = 0;                                 \
+  T *r = FN(d, s, n);                                                                                                                     \
+  VF_ASSERT(r == d, "strncat/wcsncat returns dest");                                                                                      \
+  VF_ASSERT(d[g] == (g < ld ? pre[g] : (g < ld + app ? s_in[g - ld] : 0)), "strncat/wcsncat from an array of at most n characters: dest kept, the characters before the null character (at most n) appended, result terminated, exact-fit destination, source not read past n characters or past its null character"); \
+  VF_REACH()
+
+/* strncmp / wcsncmp: BOTH operands are such arrays; n ranges over all size_t values */
+#define H_NCMP(T, FN, REF)                                                                                                                \
+  VF_INPUT(unsigned long, n); ARR(T, a, ma, n); ARR(T, b, mb, n);                                                                         \
+  VF_ASSERT(SGN(FN(a, b, n)) == REF(a_in, b_in, n, 1), "strncmp/wcsncmp on two arrays of at most n characters (terminated or not): sign of the first differing pair within n characters and before a null character, neither array read past its end"); \
+  VF_REACH()
+
+/*@GROUP name=strncpy_arr props=C18,C02 kind=B unwind=8 bound=source<=4,count<=6@*/
+void h_strncpy_arr(void) { H_NCPY(char, c_strncpy); }
+
+/*@GROUP name=wcsncpy_arr props=C18,C02 kind=B unwind=8 bound=source<=4,count<=6@*/
+void h_wcsncpy_arr(void) { H_NCPY(wch, w_wcsncpy); }
+
+/*@GROUP name=strncat_arr props=C18,C02 kind=B unwind=8 bound=source<=4,strlen(dest)<=4@*/
+void h_strncat_arr(void) { H_NCAT(char, c_strncat); }
+
+/*@GROUP name=wcsncat_arr props=C18,C02 kind=B unwind=8 bound=source<=4,wcslen(dest)<=4@*/
+void h_wcsncat_arr(void) { H_NCAT(wch, w_wcsncat); }
+
+/*@GROUP name=strncmp_arr props=C18,C02 kind=B unwind=8 bound=arrays<=4@*/
+void h_strncmp_arr(void) { H_NCMP(char, c_strncmp, c_r_cmp); }
+
+/*@GROUP name=wcsncmp_arr props=C18,C02 kind=B unwind=8 bound=arrays<=4@*/
+void h_wcsncmp_arr(void) { H_NCMP(wch, w_wcsncmp, w_r_cmp); }
+
+/* memchr, both overloads: ch over ALL int values (converted to unsigned char: 'b'+256, 256, -1, a negative plain char), n over all
+ * size_t values, the object ends with the first match when n is larger ("stops as soon as a matching character is found") */
+/*@GROUP name=memchr_int props=C18,C02 kind=B unwind=8 bound=object<=4@*/
+void h_memchr_int(void) { VF_INPUT(unsigned long, n); VF_INPUT(int, c); VF_INPUT(unsigned char, m); VF_BUF(unsigned char, a, m, AMAX);
+  unsigned char uc = (unsigned char)LOW8(c); __CPROVER_assume((unsigned long)m <= n);
+  for (int j = 0; j < AMAX; ++j) if (j + 1 < m) __CPROVER_assume(a_in[j] != uc);      /* no match before the last byte */
+  if ((unsigned long)m < n) __CPROVER_assume(m > 0 && a_in[m - 1] == uc);            /* shorter than n: ends with the first match */
+  long e = (m > 0 && a_in[m - 1] == uc) ? (long)m - 1 : -1;
+  const void *r = c_memchr(a, c, n); VF_ASSERT(e < 0 ? r == 0 : r == a + e, "memchr(void const*): first byte equal to (unsigned char)ch for every int ch, null if absent, nothing read behind the first match");
+  void *rm = c_memchr_m(a, c, n); VF_ASSERT(e < 0 ? rm == 0 : rm == a + e, "memchr(void*): first byte equal to (unsigned char)ch for every int ch, null if absent, nothing read behind the first match");
+  VF_REACH(); }
+
+/* the same search with matches anywhere in an object of exactly n bytes (several matches: the FIRST one) */
+/*@GROUP name=memchr_int_first props=C18,C02 kind=B unwind=8 bound=n<=5@*/
+void h_memchr_int_first(void) { VF_INPUT(unsigned char, n); VF_INPUT(int, c); __CPROVER_assume(n <= 5); VF_BUF(unsigned char, a, n, 5);
+  unsigned char uc = (unsigned char)LOW8(c); long e = -1; for (int i = 4; i >= 0; --i) if (i < n && a_in[i] == uc) e = i;
+  const void *r = c_memchr(a, c, n); VF_ASSERT(e < 0 ? r == 0 : r == a + e, "memchr(void const*): first of several matches, (unsigned char)ch for every int ch");
+  void *rm = c_memchr_m(a, c, n); VF_ASSERT(e < 0 ? rm == 0 : rm == a + e, "memchr(void*): first of several matches, (unsigned char)ch for every int ch");
+  VF_REACH(); }
+
+/*@GROUP name=memset_int props=C18,C02 kind=B unwind=8 bound=n<=5@*/
+void h_memset_int(void) { VF_INPUT(unsigned char, n); VF_INPUT(unsigned char, g); VF_INPUT(int, c); __CPROVER_assume(n <= 5 && g < 5);
+  VF_BUF(unsigned char, d, n, 5);                /* arbitrary previous content, exactly n bytes */
+  void *r = c_memset(d, c, n);
+  VF_ASSERT(r == d && (g >= n || d[g] == (unsigned char)LOW8(c)), "memset: every one of the n bytes becomes (unsigned char)c for every int c (c outside [0,255] is reduced), returns dest");
+  VF_REACH(); }
+
+/* strchr / strrchr, both overloads each: ch over ALL int values, converted to char; every ch that converts to the null character
+ * (0, 256, -256, ...) finds the terminator */
+/*@GROUP name=strchr_int props=C18,C02 kind=B unwind=8 bound=strlen<=4@*/
+void h_strchr_int(void) { STR(char, s, ls); VF_INPUT(int, ch);
+  char c = TO_CHAR(ch); long e = c_r_chr(s_in, ls, c), er = c_r_rchr(s_in, ls, c);
+  if (c == 0) VF_ASSERT(e == ls && er == ls, "oracle: the only null character of a string is its terminator");
+  const char *r = c_strchr(s, ch); VF_ASSERT(e < 0 ? r == 0 : r == s + e, "strchr(char const*): first occurrence of (char)ch for every int ch, the terminator counts, null if absent");
+  char *rm = c_strchr_m(s, ch); VF_ASSERT(e < 0 ? rm == 0 : rm == s + e, "strchr(char*): first occurrence of (char)ch for every int ch");
+  const char *rr = c_strrchr(s, ch); VF_ASSERT(er < 0 ? rr == 0 : rr == s + er, "strrchr(char const*): last occurrence of (char)ch for every int ch, the terminator counts, null if absent");
+  char *rrm = c_strrchr_m(s, ch); VF_ASSERT(er < 0 ? rrm == 0 : rrm == s + er, "strrchr(char*): last occurrence of (char)ch for every int ch");
+  VF_REACH(); }
+
+/* wcschr / wcsrchr (etl takes int, ISO C wchar_t: the same 32-bit type here), both overloads each, every value */
+/*@GROUP name=wcschr_int props=C18,C02 kind=B unwind=8 bound=wcslen<=4@*/
+void h_wcschr_int(void) { STR(wch, s, ls); VF_INPUT(int, ch);
+  long e = w_r_chr(s_in, ls, (wch)ch), er = w_r_rchr(s_in, ls, (wch)ch);
+  const wch *r = w_wcschr(s, ch); VF_ASSERT(e < 0 ? r == 0 : r == s + e, "wcschr(wchar_t const*): first occurrence, the terminator counts, null if absent");
+  wch *rm = w_wcschr_m(s, ch); VF_ASSERT(e < 0 ? rm == 0 : rm == s + e, "wcschr(wchar_t*)");
+  const wch *rr = w_wcsrchr(s, ch); VF_ASSERT(er < 0 ? rr == 0 : rr == s + er, "wcsrchr(wchar_t const*): last occurrence, the terminator counts, null if absent");
+  wch *rrm = w_wcsrchr_m(s, ch); VF_ASSERT(er < 0 ? rrm == 0 : rrm == s + er, "wcsrchr(wchar_t*)");
+  VF_REACH(); }
+
+/* wmemchr (both overloads) / wmemset: every wchar_t value, object of exactly n elements (7.29.4.5.8 has no early-stop clause) */
+/*@GROUP name=wmemchr_all props=C18,C02 kind=B unwind=8 bound=n<=5@*/
+void h_wmemchr_all(void) { VF_INPUT(unsigned char, n); VF_INPUT(unsigned char, g); VF_INPUT(wch, c); __CPROVER_assume(n <= 5 && g < 5); VF_BUF(wch, a, n, 5);
+  long e = -1; for (int i = 4; i >= 0; --i) if (i < n && a_in[i] == c) e = i;
+  const wch *r = w_wmemchr(a, c, n); VF_ASSERT(e < 0 ? r == 0 : r == a + e, "wmemchr(wchar_t const*): first element equal to c within n elements, null if absent");
+  wch *rm = w_wmemchr_m(a, c, n); VF_ASSERT(e < 0 ? rm == 0 : rm == a + e, "wmemchr(wchar_t*): first element equal to c within n elements, null if absent");
+  wch *rs = w_wmemset(a, c, n); VF_ASSERT(rs == a && (g >= n || a[g] == c), "wmemset: every one of the n elements becomes c, returns dest");
+  VF_REACH(); }
